@@ -11,7 +11,7 @@ use chumsky::Parser;
 
 pub const ID: &str = "C03";
 
-pub const RULE: &str = "cases = (grammar, input) with grammars of the C01/C02 classes plus validate(..) emitters and recover_with(..) nodes (C08 class); inputs derived/random as in C01 plus the bounded-exhaustive tier (small grammars x all strings over {a,b,c} up to length L). On every case the raw ParseResult of parse() and of check() is tested for: has_errors <=> errors non-empty; no output => >= 1 error; errors => into_result() is Err; no errors => output present and into_result() is Ok; an error-free result with output <=> the reference matches the ENTIRE input without emissions (output equal). For every cleanly accepted input w and every symbol c of the alphabet plus a foreign one, parse(w.c) must be rejected unless the reference matches w.c entirely. g.lazy() must accept iff the reference matches a prefix (same output). NON-TRIVIAL = the reference matched a non-empty proper prefix of the input (where a missing end-of-input check would show), or the result has output and errors; distinct = distinct (sub-check, grammar, input).";
+pub const RULE: &str = "cases = (grammar, input) with grammars of the C01/C02 classes plus validate(..) emitters and recover_with(..) nodes (C08 class); inputs derived/random as in C01 plus the bounded-exhaustive tier (small grammars x all strings over {a,b,c} up to length L). On every case the raw ParseResult of parse() and of check() is tested for: has_errors <=> errors non-empty; no output => >= 1 error; errors => into_result() is Err; no errors => output present and into_result() is Ok; an error-free result with output <=> the reference matches the ENTIRE input without emissions (output equal). For every cleanly accepted input w and every symbol c of the alphabet plus a foreign one, parse(w.c) must be rejected unless the reference matches w.c entirely. g.lazy() must accept iff the reference matches a prefix (same output). NON-TRIVIAL = the reference matched a non-empty proper prefix of the input (where a missing end-of-input check would show), or the result has output and errors; distinct = distinct (sub-check, grammar, input). Regex tier (feature regex): regex(r1).then(regex(r2)) for every pair of 12 pattern templates (incl. nullable ones) x every string over {a b 0 e é} up to length 4 (5): an error-free parse() / check() result iff the two anchored regex-automata matches tile the ENTIRE input, and .lazy() accepts iff they match a prefix, with that extent.";
 
 pub const ASSUMPTIONS: &[&str] = &[
     "reference PEG evaluator (harness/src/reference.rs) decides 'matches the entire input'; admissible variants V-lead / V-trail-cap are all tried",
@@ -179,7 +179,65 @@ fn check_inner(sub: &str, g: &G, toks: &[char], alpha: &[char], l: &mut Local) -
     Ok(())
 }
 
+// ---- regex leaves: the contract over grammars whose tokens are consumed by regex() ----
+
+/// chars matched by an anchored search for `re` on the suffix alone (the specification of regex(), see C14)
+fn anchored(re: &regex_automata::meta::Regex, s: &str, from: usize) -> Option<usize> {
+    let suffix = &s[from..];
+    let inp = regex_automata::Input::new(suffix).anchored(regex_automata::Anchored::Yes);
+    re.find(inp).map(|m| from + m.end())
+}
+
+/// `regex(r1).then(regex(r2))` and `regex(r1).lazy()` / `regex(r1).then(regex(r2)).lazy()`: an error-free result
+/// means that the two anchored matches tile the ENTIRE input (resp. a prefix of it, for lazy)
+fn regex_case(r1: &super::c14::Re, r2: &super::c14::Re, s: &str, l: &mut Local) -> Result<(), Fail> {
+    use chumsky::prelude::*;
+    type E<'a> = extra::Err<Rich<'a, char>>;
+    let (p1, p2) = (r1.render(), r2.render());
+    let (x1, x2) = (regex_automata::meta::Regex::new(&p1).expect("pattern compiles"), regex_automata::meta::Regex::new(&p2).expect("pattern compiles"));
+    let seq_end = anchored(&x1, s, 0).and_then(|e| anchored(&x2, s, e));
+    let whole = seq_end == Some(s.len());
+    let r = quietly(|| {
+        let p = chumsky::regex::regex::<&str, E>(&p1).then(chumsky::regex::regex::<&str, E>(&p2));
+        let a = result_contract(p.parse(s));
+        let c = result_contract(p.check(s));
+        let pl = chumsky::regex::regex::<&str, E>(&p1).then(chumsky::regex::regex::<&str, E>(&p2)).lazy();
+        let (lo, le) = pl.parse(s).into_output_errors();
+        let lazy_out = lo.map(|(a, b2): (&str, &str)| a.len() + b2.len());
+        (a, c, lazy_out, le.len())
+    });
+    l.evals += 3;
+    let (a, c, lazy_out, lazy_errs) = match r {
+        Ok(x) => x,
+        Err(_) => return Err(Fail::new("C03/panic", format!("regex({:?}).then(regex({:?})) panicked on {:?}: {:?}", p1, p2, s, LAST_PANIC.with(|p| p.borrow_mut().take())))),
+    };
+    for (what, res) in [("parse", a), ("check", c)] {
+        let (ho, ne) = res.map_err(|m| Fail::new("C03/contract", format!("{}: {}", what, m)))?;
+        let clean = ho && ne == 0;
+        if clean != whole {
+            let sig = if clean { "C03/accepted-partial-match" } else { "C03/rejected-full-match" };
+            return Err(Fail::new(sig, format!("{}() of regex({:?}).then(regex({:?})) on {:?}: error-free output = {}, but the two anchored matches {} the entire input (they end at {:?})", what, p1, p2, s, clean, if whole { "tile" } else { "do not tile" }, seq_end)));
+        }
+    }
+    let lazy_clean = lazy_out.is_some() && lazy_errs == 0;
+    if lazy_clean != seq_end.is_some() || (lazy_clean && lazy_out != seq_end) {
+        return Err(Fail::new("C03/lazy", format!("regex({:?}).then(regex({:?})).lazy() on {:?}: error-free output = {} (matched {:?} bytes), the anchored matches end at {:?}", p1, p2, s, lazy_clean, lazy_out, seq_end)));
+    }
+    l.bump("regex_cases");
+    if whole {
+        l.bump("regex_clean_accept");
+    }
+    if seq_end.is_some() && !whole {
+        l.bump("regex_matched_proper_prefix");
+    }
+    Ok(())
+}
+
 pub fn check_case(case: &Case, l: &mut Local) -> Result<(), Fail> {
+    if case.sub == "regex" {
+        let re = |k: &str| serde_json::from_value::<super::c14::Re>(case.extra.get(k).cloned().unwrap_or(serde_json::Value::Null)).map_err(|e| Fail::new("C03/replay", format!("bad pattern: {}", e)));
+        return regex_case(&re("r1")?, &re("r2")?, &case.input, l);
+    }
     let alpha: Vec<char> = case.extra.get("alphabet").and_then(|a| a.as_str()).unwrap_or("abc").chars().collect();
     check_inner(&case.sub, &case.g, &case.toks(), &alpha, l).map_err(|(_, f)| f)
 }
@@ -226,6 +284,23 @@ pub fn run(tier: Tier, seed: u64) -> i32 {
         }
         Ok(())
     });
+    // regex leaves (feature regex): every pair of pattern templates x every short string
+    {
+        let res = super::c14::regex_templates();
+        let pairs: Vec<(super::c14::Re, super::c14::Re)> = res.iter().flat_map(|a| res.iter().map(move |c| (a.clone(), c.clone()))).collect();
+        let rstrings = all_strings(&['a', 'b', '0', 'e', 'é'], ctx.pick(4, 5));
+        ctx.par_jobs(&pairs, |(r1, r2), l| {
+            for cs in &rstrings {
+                let s: String = cs.iter().collect();
+                regex_case(r1, r2, &s, l).map_err(|f| {
+                    let mut c = Case::new(ID, "regex", &G::Empty, cs);
+                    c.extra = serde_json::json!({ "r1": r1, "r2": r2 });
+                    (c, f)
+                })?;
+            }
+            Ok(())
+        });
+    }
     let n = ctx.pick(1_000_000, 6_000_000);
     ctx.par_random(n, 180, 3, |tape, l| {
         let (g, input, alpha) = decode(tape);
@@ -233,7 +308,7 @@ pub fn run(tier: Tier, seed: u64) -> i32 {
         check_inner("rand", &g, &input, &alpha, l)
     });
     ctx.finish(&check_case, RULE, ASSUMPTIONS, &|l| {
-        for k in ["reference_matched_proper_prefix", "clean_accept", "extensions_tried", "lazy_accepted_proper_prefix"] {
+        for k in ["reference_matched_proper_prefix", "clean_accept", "extensions_tried", "lazy_accepted_proper_prefix", "regex_clean_accept", "regex_matched_proper_prefix"] {
             if l.counters.get(k).copied().unwrap_or(0) == 0 {
                 return Err(format!("class '{}' is empty", k));
             }
